@@ -168,6 +168,11 @@ type world struct {
 	netOpen       map[string]*download // task name -> download
 	updOpen       map[string]*download // updater task -> download
 	windowParking bool
+	// sharedKid: the provider names keys of different types alike (RFC 7517 4.5 allows one kid for equivalent keys of
+	// different kty); encDecoys: every named signing key is preceded in the document by an encryption key (use=enc)
+	// of the same type under the same kid. Neither changes which tokens the document vouches for.
+	sharedKid     bool
+	encDecoys     bool
 	allowFaults   bool
 	allowCancel   bool
 	allowDeadline bool
@@ -200,7 +205,7 @@ func (tr *transport) RoundTrip(req *http.Request) (*http.Response, error) {
 		return &http.Response{StatusCode: status, Status: fmt.Sprintf("%d %s", status, http.StatusText(status)),
 			Header: http.Header{"Content-Type": {"application/json"}}, Body: io.NopCloser(strings.NewReader(body)), Request: req}, nil
 	}
-	body := jwksBody(snap, out == "badkty")
+	body := jwksBody(snap, out == "badkty", tr.w.encDecoys)
 	switch out {
 	case "ok", "badkty":
 		return mk(200, body)
@@ -218,12 +223,22 @@ func (tr *transport) RoundTrip(req *http.Request) (*http.Response, error) {
 	return nil, errors.New("simnet: aborted")
 }
 
-func jwksBody(snap []servedKey, withUnknownKty bool) string {
+func jwksBody(snap []servedKey, withUnknownKty, encDecoys bool) string {
 	var raws []json.RawMessage
 	if withUnknownKty {
 		raws = append(raws, json.RawMessage(`{"kty":"XYZ","kid":"weird","x":"AAAA"}`))
 	}
 	for _, sk := range snap {
+		if encDecoys && sk.Kid != "" {
+			d := universe[(sk.Key+1)%3+3*famOf(sk.Key)].pub
+			d.KeyID = sk.Kid
+			d.Use = "enc"
+			b, err := d.MarshalJSON()
+			if err != nil {
+				panic(err)
+			}
+			raws = append(raws, b)
+		}
 		k := universe[sk.Key].pub
 		k.KeyID = sk.Kid
 		k.Use = "sig"
@@ -328,8 +343,17 @@ func runInBubble(o *kernel.Outcome, spec kernel.Spec) {
 	if cfg.Bool(1, 5) {
 		w.nokidKey = order[0]
 	}
+	shape := tape.Sub("cfg-kids")
+	w.sharedKid = shape.Bool(1, 4)
+	w.encDecoys = shape.Bool(1, 4)
+	if w.sharedKid {
+		o.Probe("worlds-with-one-kid-for-keys-of-different-types")
+	}
+	if w.encDecoys {
+		o.Probe("worlds-with-encryption-keys-under-the-signing-kids")
+	}
 	for i := 0; i < nServed; i++ {
-		kid := kidOf(order[i])
+		kid := w.kid(order[i])
 		if order[i] == w.nokidKey {
 			kid = ""
 		}
@@ -388,6 +412,9 @@ func runInBubble(o *kernel.Outcome, spec kernel.Spec) {
 	}
 	o.Trace = w.s.Trace
 	o.Steps = w.s.Step
+	if w.s.Strategy != "" {
+		o.Probe("schedule-strategy:" + w.s.Strategy)
+	}
 	w.oracle(skip)
 	w.finish(skip, order)
 }
@@ -440,7 +467,7 @@ func (w *world) enabled(order []int, draining bool) []kernel.Event {
 				evs = append(evs, kernel.Event{Name: "abort:" + p.Task, Drain: true, Apply: func() { w.s.Release(p.Task, "abort") }})
 				continue
 			}
-			evs = append(evs, kernel.Event{Name: "invoke:" + p.Task, Weight: 3, Apply: func() { w.invoke(i) }})
+			evs = append(evs, kernel.Event{Name: "invoke:" + p.Task, Task: p.Task, Weight: 3, Apply: func() { w.invoke(i) }})
 		case strings.HasPrefix(p.Task, "net:"):
 			ctxDead := false
 			if rc, ok := p.Detail.(context.Context); ok && rc.Err() != nil {
@@ -476,7 +503,7 @@ func (w *world) enabled(order []int, draining bool) []kernel.Event {
 				}
 			}
 		default:
-			evs = append(evs, kernel.Event{Name: "wake:" + p.Task + "@" + p.Point, Weight: 3, Drain: true, Apply: func() {
+			evs = append(evs, kernel.Event{Name: "wake:" + p.Task + "@" + p.Point, Task: p.Task, Weight: 3, Drain: true, Apply: func() {
 				if p.Point == "verify.miss" && len(p.Task) == 2 && p.Task[0] == 'c' {
 					if c := w.active[int(p.Task[1]-'0')]; c != nil {
 						c.MissRelease = w.s.Step
@@ -548,7 +575,7 @@ func (w *world) enabled(order []int, draining bool) []kernel.Event {
 				w.bumpNext(order)
 				w.rotations++
 				w.mu.Lock()
-				w.served = append(w.served, servedKey{Kid: kidOf(k), Key: k})
+				w.served = append(w.served, servedKey{Kid: w.kid(k), Key: k})
 				w.mu.Unlock()
 			}})
 			evs = append(evs, kernel.Event{Name: "rotate:replace", Weight: 1, Apply: func() {
@@ -556,7 +583,7 @@ func (w *world) enabled(order []int, draining bool) []kernel.Event {
 				w.bumpNext(order)
 				w.rotations++
 				w.mu.Lock()
-				w.served = []servedKey{{Kid: kidOf(k), Key: k}}
+				w.served = []servedKey{{Kid: w.kid(k), Key: k}}
 				w.mu.Unlock()
 			}})
 		}
@@ -583,6 +610,14 @@ func (w *world) enabled(order []int, draining bool) []kernel.Event {
 	return evs
 }
 
+// kid is the name the provider of this world gives a key of the universe.
+func (w *world) kid(key int) string {
+	if w.sharedKid {
+		return kidOf(key % 3)
+	}
+	return kidOf(key)
+}
+
 func (w *world) bumpNext(order []int) {
 	w.nextKey++
 	w.nextKeyIdx = -1
@@ -607,7 +642,7 @@ func (w *world) invoke(i int) {
 	}
 	switch x := ch.Int(20); {
 	case x < 14:
-		c.TokKid = kidOf(c.TokKey)
+		c.TokKid = w.kid(c.TokKey)
 		if c.TokKey == w.nokidKey && ch.Bool(1, 2) {
 			c.TokKid = ""
 		}
